@@ -24,7 +24,7 @@ use std::{
     fmt,
     ops::{Deref, DerefMut},
 };
-use unicode_width::UnicodeWidthStr;
+use unicode_width::UnicodeWidthChar;
 
 mod cell;
 mod contacts;
@@ -537,7 +537,13 @@ impl CellBuffer {
                         acc
                     },
                 );
-                let escaped_unicode_width = escaped.width();
+                // every character occupies at least one column, the NUL fillers that
+                // follow a wide character are already counted in the width of that character
+                let escaped_unicode_width: usize = escaped
+                    .chars()
+                    .filter(|ch| *ch != '\0')
+                    .map(|ch| ch.width().unwrap_or(1).max(1))
+                    .sum();
                 let cell = Cell::new(*start as i32, line as i32);
                 escaped_text.push((cell, escaped));
                 no_escaped_text += &input_chars[index..*start].iter().fold(
